@@ -72,6 +72,10 @@ CHECKS = {
          "the tagged count used in a parent filter, a sibling fold, a nested scope of a sibling fold, another count filter) x fold sizes 0..4, at top level and under @optional; TLC compares each real row bag with Sem. "
          "Model level: Interp.tla's FoldCollect (stop at max+1, stop at min only when nothing observes the fold) yields the same rows on a sample.",
          "Bounded to the enumerated classes plus the random universe's count-filter queries."),
+ "C23": (MC, "6/C23", "TLC judge (JudgeMeta): each metamorphic relation checked as a theorem about Sem.tla and on the real engine's rows for the transformed pair",
+         "gen/meta.py applies nine source-level transformations (add filter, deeper recursion, make optional, parameter<->filter, = <-> one_of, filter/negation partition, renaming, sibling property / edge reordering) to the semantic universe; "
+         "TLC evaluates the predicted bag relation on Sem's rows (validating the specification against spec.md's equivalences) and on the rows the real engine returned.",
+         "Side conditions (outside folds / optional scopes) are part of the transformation; cases the frontend rejects or with > 40 rows are skipped and counted."),
 }
 NOT_YET ="check not built yet at this commit (see DESIGN.md section 6 for the planned decision procedure)"
 
